@@ -33,6 +33,9 @@ pub enum Ev {
     ServerCancel { c: u16, nowait: bool },
     ClientCloseChannel { ch: u8 },
     ServerCloseChannel { ch: u8, code: u16, text: String },
+    /// the client closes the channel and the server closes it at the same moment: the server's
+    /// Close reaches the client first, followed by the CloseOk for the client's own Close
+    CrossedCloseChannel { ch: u8, code: u16 },
     ClientCloseConnection,
     ServerCloseConnection { code: u16, text: String },
 }
@@ -63,6 +66,8 @@ pub struct Broker {
     seq: HashMap<u16, u32>,
     pub extra_before_cancel_ok: HashMap<String, Vec<Vec<u8>>>,
     pub next_tag: u64,
+    /// channel id -> reply code: answer the client's Channel.Close with our own Close + CloseOk
+    pub cross_close: HashMap<u16, u16>,
 }
 
 impl Responder for Broker {
@@ -77,6 +82,24 @@ impl Responder for Broker {
                             io.send(f);
                         }
                     }
+                }
+            }
+            if let AMQPClass::Channel(Chan::Close(_)) = m {
+                if let Some(code) = self.cross_close.remove(ch) {
+                    *seq += 1;
+                    io.send_glued(vec![
+                        AMQPFrame::Method(
+                            *ch,
+                            AMQPClass::Channel(Chan::Close(channel::Close {
+                                reply_code: code,
+                                reply_text: "crossed".into(),
+                                class_id: 0,
+                                method_id: 0,
+                            })),
+                        ),
+                        AMQPFrame::Method(*ch, AMQPClass::Channel(Chan::CloseOk(channel::CloseOk {}))),
+                    ]);
+                    return;
                 }
             }
             if let Some(reply) = reply_for(self.salt, *ch, *seq, m) {
@@ -131,6 +154,7 @@ pub fn exec(c: &Case) -> Outcome {
         seq: HashMap::new(),
         extra_before_cancel_ok: HashMap::new(),
         next_tag: 0,
+        cross_close: HashMap::new(),
     };
     let mut sess = open_session(&ClientCfg::default(), ServerCfg::default(), vec![], broker);
     let mut conn = match sess.conn.take() {
@@ -347,6 +371,39 @@ pub fn exec(c: &Case) -> Outcome {
                     }
                     if !barrier(&ctl) {
                         return Err("barrier failed after channel close".into());
+                    }
+                }
+                Ev::CrossedCloseChannel { ch, code } => {
+                    let i = *ch as usize % nch;
+                    if chan_taken[i] || !chan_open[i] {
+                        continue;
+                    }
+                    let chid = chan_ids[i];
+                    let code = *code;
+                    bh.call(move |b, _| {
+                        b.cross_close.insert(chid, code);
+                    });
+                    for (k, r) in recs.iter_mut().enumerate() {
+                        if r.ch_idx == i {
+                            if let Some(cons) = consumers[k].take() {
+                                std::mem::forget(cons);
+                            }
+                            r.candidate_causes += 2;
+                            if r.exp_term.is_none() {
+                                r.exp_term = Some(Term::ServerClosedChannel(chid, code, "crossed".into()));
+                            }
+                        }
+                    }
+                    chan_taken[i] = true;
+                    chan_open[i] = false;
+                    let boxed = unsafe { Box::from_raw(chan_ptrs[i]) };
+                    match boxed.close() {
+                        Err(Error::ServerClosedChannel { channel_id, code: c2, message }) if channel_id == chid && c2 == code && message == "crossed" => {}
+                        other => return Err(format!("crossed close of channel {}: Channel::close returned {:?}, expected ServerClosedChannel", chid, other)),
+                    }
+                    if !barrier(&ctl) {
+                        notes.push("connection-killed-by-crossed-channel-close".to_string());
+                        conn_alive = false;
                     }
                 }
                 Ev::ServerCloseChannel { ch, code, text } => {
@@ -621,6 +678,7 @@ fn strat(_t: Tier) -> BoxedStrategy<Case> {
         3 => (any::<u16>(), any::<bool>()).prop_map(|(c, nowait)| Ev::ServerCancel { c, nowait }),
         1 => (0u8..3).prop_map(|ch| Ev::ClientCloseChannel { ch }),
         1 => (0u8..3, any::<u16>(), text()).prop_map(|(ch, code, text)| Ev::ServerCloseChannel { ch, code, text }),
+        1 => (0u8..3, any::<u16>()).prop_map(|(ch, code)| Ev::CrossedCloseChannel { ch, code }),
         1 => Just(Ev::ClientCloseConnection),
         1 => (any::<u16>(), text()).prop_map(|(code, text)| Ev::ServerCloseConnection { code, text }),
     ];
